@@ -44,7 +44,7 @@ func spaces(tier, only string) []space {
 		oddKeys = []string{"100%.csv", "a b.txt", "a%2Fb", "b//c", "b//d/e", "c+d&e", "q?x#y", "é.txt"}
 	}
 	all := []space{newJSONSpace("json", shallow, []int{0, 1, 2, 3, 5, 6}), newJSONSpace("json-deep", sortShapes(deep), []int{0, 1, 2}),
-		newXMLSpace(), newMediaSpace(), newMasterSpace(masterLen), newS3Space(keys, pages), newS3SpaceNamed("s3-odd-keys", oddKeys, pages)}
+		newXMLSpace(), newSelfSpace(), newMediaSpace(), newMasterSpace(masterLen), newS3Space(keys, pages), newS3SpaceNamed("s3-odd-keys", oddKeys, pages)}
 	if only == "" {
 		return all
 	}
